@@ -352,7 +352,7 @@ func c09AppGate(c *Ctx, r *R) {
 			n++
 			dom := false
 			for _, e := range tr {
-				if eng.EdgeDominates(e, k.Block()) || e.To() == k.Block() {
+				if eng.EdgeDominates(e, k.Block()) {
 					dom = true
 				}
 			}
